@@ -39,6 +39,7 @@ func C13(c *Ctx) int {
 		o.Add(r)
 		c.HandleRepoCex(o, r, nil)
 	}
+	c.ValidateSamples(o, nil, 4)
 	o.Assumptions = []string{"the iteration order of Go's built-in maps is an explicit oracle of the engine: a fresh solver variable per range statement, resolved by case split",
 		"a map-order witness cannot be forced natively; counterexamples are replayed by running the native harness (which only confirms when Go happens to pick a differing order)"}
 	o.Outside = []string{"stale files from earlier generations, other working directories, other processes (file-system histories have no encoding here)",
